@@ -78,10 +78,15 @@ deriving Repr, BEq, DecidableEq
 def SeqKind.name : SeqKind → String
   | .seq => "seq" | .tuple => "tuple" | .tupleStruct => "tuple_struct"
 
-/-- `start_seq` / `end_seq` of a binary view array around the bytes of one sequence -/
-def viewSeq (views : List Nat) (buf0 : Bytes) (bytes : Bytes) : List Nat × Bytes :=
-  if bytes.length ≤ 12 then (views ++ [packInline bytes], buf0)
-  else (views ++ [packExtern bytes 0 buf0.length], buf0 ++ bytes)
+/-- `start_seq` / `push_seq_elements(1)`* / `end_seq` of a binary view array around the bytes of one sequence (after the
+`fix:` above): `push_seq_elements` refuses the element that takes the length beyond `i32::MAX`, `end_seq` refuses an
+out-of-line value whose start offset exceeds `i32::MAX`.  (The element bytes are converted up front in the model — a
+non-`u8` element behind 2^31 valid ones is reported as that conversion error here, as the overflow in the code: both `Err`.) -/
+def viewSeq (views : List Nat) (buf0 : Bytes) (bytes : Bytes) : R (List Nat × Bytes) :=
+  if bytes.length > I32_MAX then fail s!"BytesView overflow: the element length {I32_MAX + 1} exceeds i32::MAX"
+  else if bytes.length ≤ 12 then .ok (views ++ [packInline bytes], buf0)
+  else if buf0.length > I32_MAX then fail s!"BytesView overflow: the buffer offset {buf0.length} exceeds i32::MAX"
+  else .ok (views ++ [packExtern bytes 0 buf0.length], buf0 ++ bytes)
 
 /-- scalar calls (`serialize_bool` … `serialize_bytes`, `serialize_unit_struct`): not recursive -/
 def pushScalar (ext : Ext) (b : B) (x : SVal) : R B :=
@@ -121,8 +126,8 @@ def pushScalar (ext : Ext) (b : B) (x : SVal) : R B :=
         | _ => notSupported s!"serialize_{x.kind}"
     do
       let bs ← value
+      let (views', buf') ← viewPushValue views buf bs
       let v' ← setValidity v views.length true
-      let (views', buf') := viewPushValue views buf bs
       pure (.bytesView p ty v' views' buf')
   | .fixedSizeBinary p n len v buf cur =>
     match x with
@@ -189,7 +194,7 @@ def seqLikeWith (pe : Bool → B → List Int → R (B × List Int)) (pc : B →
     if ty == .binaryView then do
       let v' ← setValidity v views.length true
       let bs ← bytes
-      let (views', buf') := viewSeq views buf bs
+      let (views', buf') ← viewSeq views buf bs
       pure (.bytesView p ty v' views' buf')
     else notSupported s!"serialize_{k.name}_start"
   | .fixedSizeBinary p n len v buf _, _ => do
